@@ -71,6 +71,23 @@ fn check_rules(rule_texts: &[&str], a: &mut Acc) {
             (Some(_), Some(_)) => match &got { Err(_) => a.errs += 1, Ok(v) => a.viols.push(Viol { key: key(), desc: format!("run returned Ok({:?}) although some words fail", v), case: case() }) },
         }
     }
+    // lines of two words in which at least one word fails: the run fails, with the error of the first failing word (within one phase)
+    for i in 0..n { for j in 0..n {
+        if single[i].1 == 0 && single[j].1 == 0 { continue; }
+        a.evals += 1;
+        let line = format!("{} {}", WORD_POOL[i], WORD_POOL[j]);
+        let fails: Vec<usize> = [i, j].into_iter().filter(|x| single[*x].1 != 0).collect();
+        let same_phase = fails.iter().all(|x| single[*x].1 == single[fails[0]].1);
+        let first = if let Some(p) = [i, j].into_iter().find(|x| single[*x].1 == 1) { p } else { fails[0] };
+        let want = single[first].0.clone().unwrap_err();
+        for (which, list) in [("alone", vec![line.clone()]), ("after-a-good-line", vec!["pa".to_string(), line.clone()])] {
+            match run(&rules, &list) {
+                Out::Ok(Err(e)) if !same_phase || e == want => a.errs += 1,
+                Out::Ok(x) => a.viols.push(Viol { key: format!("failing-line|{}|{}|{}", rule_texts.join(" ;; "), line, which), desc: format!("run([{}], {:?}) = {:?}, expected the error of the first failing word `{}`: {}", rule_texts.join(" ;; "), list, x, WORD_POOL[first], want), case: json!({"kind": "failing-line", "rules": rule_texts, "line": line, "which": which}) }),
+                _ => {}
+            }
+        }
+    } }
     // lines of two and three space-separated words
     let okw: Vec<usize> = (0..n).filter(|i| single[*i].1 == 0).collect();
     for &i in &okw { for &j in &okw {
@@ -91,7 +108,7 @@ fn check_rules(rule_texts: &[&str], a: &mut Acc) {
 pub fn run_check() -> i32 {
     let mut r = Report::new("C11");
     let thorough = r.thorough();
-    r.rule = "rule lists = every single rule (thorough: every ordered pair) of a 43-rule pool (alphas, variables, insertion, deletion, metathesis, tone, two that raise runtime errors); word lists = every ordered list of 1..3 words of a 13-word pool (incl. a word ending in a partial match of a two-element input and a word starting with a full match) (two fail at parse, two are the same word in americanist and in plain IPA spelling, some fail at apply depending on the rule), which contains all their permutations and sublists; lines `u v` and `u v w` for all pool pairs/triples of succeeding words. Oracle: len(out) == len(in), out[i] == run(R,[W[i]])[0], a line is the single-word results joined by one space, a failing list fails with the error of its first failing word (within one phase). Non-trivial = list of >= 2 words.".into();
+    r.rule = "rule lists = every single rule (thorough: every ordered pair) of a 43-rule pool (alphas, variables, insertion, deletion, metathesis, tone, two that raise runtime errors); word lists = every ordered list of 1..3 words of a 13-word pool (incl. a word ending in a partial match of a two-element input and a word starting with a full match) (two fail at parse, two are the same word in americanist and in plain IPA spelling, some fail at apply depending on the rule), which contains all their permutations and sublists; lines `u v` and `u v w` for all pool pairs/triples of succeeding words; lines `u v` for all pool pairs in which a word fails (alone and after a good line). Oracle: len(out) == len(in), out[i] == run(R,[W[i]])[0], a line is the single-word results joined by one space, a failing list fails with the error of its first failing word (within one phase). Non-trivial = list of >= 2 words.".into();
     r.assumptions.push("lists mixing parse-phase and apply-phase failures only have to fail (run parses all words before applying any rule; the statement does not rank the phases)".into());
     let mut jobs: Vec<Vec<&str>> = RULE_POOL.iter().map(|x| vec![*x]).collect();
     if thorough { for a in RULE_POOL { for b in RULE_POOL { jobs.push(vec![a, b]); } } }
@@ -110,6 +127,6 @@ pub fn replay(case: &Value) -> Result<String, String> {
     let rules: Vec<&str> = case["rules"].as_array().ok_or("rules")?.iter().map(|x| x.as_str().unwrap_or("")).collect();
     let mut a = Acc::default();
     check_rules(&rules, &mut a);
-    let want_key = match case["kind"].as_str() { Some("line") => format!("line|{}|{}", rules.join(" ;; "), case["line"].as_str().unwrap_or("")), _ => format!("list|{}|{}", rules.join(" ;; "), case["words"].as_array().map(|v| v.iter().map(|x| x.as_str().unwrap_or("")).collect::<Vec<_>>().join(" , ")).unwrap_or_default()) };
+    let want_key = match case["kind"].as_str() { Some("failing-line") => format!("failing-line|{}|{}|{}", rules.join(" ;; "), case["line"].as_str().unwrap_or(""), case["which"].as_str().unwrap_or("")), Some("line") => format!("line|{}|{}", rules.join(" ;; "), case["line"].as_str().unwrap_or("")), _ => format!("list|{}|{}", rules.join(" ;; "), case["words"].as_array().map(|v| v.iter().map(|x| x.as_str().unwrap_or("")).collect::<Vec<_>>().join(" , ")).unwrap_or_default()) };
     match a.viols.iter().find(|v| v.key == want_key) { Some(v) => Err(v.desc.clone()), None => Ok("independent and in order".into()) }
 }
